@@ -14,7 +14,8 @@ import (
 //   - the tick sets the back-off state from executeAndReschedule's error and nothing else assigns it
 //     (`if err := sched.executeAndReschedule(ctx); err != nil { retryAt = time.Now().Add(sched.opts.RetryInterval) }`
 //     on a zero-initialised `var retryAt time.Time`), executeAndReschedule returns fetchAndReschedule's error,
-//     fetchAndReschedule returns the Pop()/Push() error and nil for ErrQueueEmpty, the dispatch is guarded by `valid`;
+//     fetchAndReschedule returns the Pop()/Push() error, an ErrQueueEmpty from Pop() included unless Size() then answers 0,
+//     the dispatch is guarded by `valid`;
 //   - every API method returns the error of each queue call it makes.
 // Helpers with the prefix wk are in x_wakeup.go.
 
@@ -28,7 +29,8 @@ type fqFacts struct {
 	StateFromTick       bool        `json:"stateFromTick"`
 	ExecReturnsFetchErr bool        `json:"execReturnsFetchErr"`
 	PopErrReturned      bool        `json:"popErrReturned"`
-	PopEmptyNil         bool        `json:"popEmptyNil"`
+	PopEmptyReturned    bool        `json:"popEmptyReturned"`
+	PopEmptyUnlessZero  bool        `json:"popEmptyUnlessSizeZero"`
 	PushErrReturned     bool        `json:"pushErrReturned"`
 	DispatchOnlyIfValid bool        `json:"dispatchOnlyIfValid"`
 	APIPropagates       [][2]any    `json:"apiPropagates"`
@@ -494,7 +496,7 @@ func extractFaults(repo string, fx *Facts) {
 			case *ast.CallExpr:
 				isDispatch = wkSel(x.Fun, "sched", "executeWithRetries")
 			case *ast.SendStmt:
-				isDispatch = wkSel(x.Chan, "sched", "dispatch")
+				isDispatch = wkSel(x.Chan, "sched", "dispatch") || fqIsIdent(x.Chan, "dispatch")
 			}
 			if isDispatch {
 				nDispatch++
@@ -527,11 +529,76 @@ func extractFaults(repo string, fx *Facts) {
 				if r := fqLastReturn(eb.Body.List); r != nil && len(r.Results) == 3 && fqIsIdent(r.Results[2], "err") && fqIsIdent(r.Results[1], "false") {
 					ff.PopErrReturned = fqAssignCount(eb.Body, "err") == 0
 				}
+				// the ErrQueueEmpty case. Recognised forms of the errors.Is(err, ErrQueueEmpty) branch:
+				//   { …log…; return nil, false, nil }                      -> nil, always
+				//   { …log… }  (falls to the block's `return nil, false, err`)   -> returned, always
+				//   { …log…; if size, sizeErr := sched.queue.Size(); sizeErr == nil && size == 0 { return nil, false, nil } }
+				//                                                          -> returned unless Size() answers 0
+				// no such branch at all: ErrQueueEmpty is returned like any other error
+				emptyIf := (*ast.IfStmt)(nil)
 				for _, st := range eb.Body.List {
 					if is, ok := st.(*ast.IfStmt); ok && is.Init == nil && fqIsErrorsIsEmpty(is.Cond) {
-						if r := fqLastReturn(is.Body.List); r != nil && len(r.Results) == 3 && fqIsIdent(r.Results[2], "nil") && fqIsIdent(r.Results[1], "false") {
-							ff.PopEmptyNil = true
+						emptyIf = is
+					}
+				}
+				switch {
+				case emptyIf == nil:
+					ff.PopEmptyReturned = ff.PopErrReturned
+				default:
+					returns, ownNil, sizeCheck, other := 0, false, false, false
+					for _, st := range emptyIf.Body.List {
+						switch x := st.(type) {
+						case *ast.ExprStmt:
+							if c, ok := x.X.(*ast.CallExpr); !ok || !wkSel(c.Fun, "sched", "logger", callName(c)) {
+								other = true
+							}
+						case *ast.ReturnStmt:
+							returns++
+							ownNil = len(x.Results) == 3 && fqIsIdent(x.Results[2], "nil") && fqIsIdent(x.Results[1], "false")
+						case *ast.IfStmt:
+							// if size, sizeErr := sched.queue.Size(); sizeErr == nil && size == 0 { return nil, false, nil }
+							init, ok := x.Init.(*ast.AssignStmt)
+							okShape := ok && x.Else == nil && len(init.Lhs) == 2 && len(init.Rhs) == 1 && fqIsIdent(init.Lhs[0], "size") && fqIsIdent(init.Lhs[1], "sizeErr")
+							if okShape {
+								_, okShape = wkCall(init.Rhs[0], "sched", "queue", "Size")
+							}
+							okShape = okShape && noSpaceFq(wkExpr(x.Cond)) == "sizeErr==nil&&size==0" && len(x.Body.List) == 1
+							if okShape {
+								r, isRet := x.Body.List[0].(*ast.ReturnStmt)
+								okShape = isRet && len(r.Results) == 3 && fqIsIdent(r.Results[2], "nil") && fqIsIdent(r.Results[1], "false")
+							}
+							if okShape && !sizeCheck {
+								sizeCheck = true
+							} else {
+								other = true
+							}
+						default:
+							other = true
 						}
+					}
+					if elseBlk, ok := emptyIf.Else.(*ast.BlockStmt); ok { // the else branch (other errors) may only log
+						for _, st := range elseBlk.List {
+							es, ok := st.(*ast.ExprStmt)
+							if !ok {
+								other = true
+								continue
+							}
+							if c, ok := es.X.(*ast.CallExpr); !ok || !wkSel(c.Fun, "sched", "logger", callName(c)) {
+								other = true
+							}
+						}
+					} else if emptyIf.Else != nil {
+						other = true
+					}
+					switch {
+					case other:
+					case returns == 1 && ownNil && !sizeCheck:
+						// nil, always: both facts stay false
+					case returns == 0 && !sizeCheck:
+						ff.PopEmptyReturned = ff.PopErrReturned
+					case returns == 0 && sizeCheck:
+						ff.PopEmptyReturned = ff.PopErrReturned
+						ff.PopEmptyUnlessZero = true
 					}
 				}
 			}
@@ -573,7 +640,7 @@ func extractFaults(repo string, fx *Facts) {
 			}
 		}
 	}
-	if !ff.PopErrReturned && !ff.PushErrReturned && !ff.PopEmptyNil {
+	if !ff.PopErrReturned && !ff.PushErrReturned && !ff.PopEmptyReturned {
 		fx.miss("faults.fetchAndReschedule")
 	}
 
@@ -621,7 +688,7 @@ func renderFaults(fx *Facts) string {
 	fmt.Fprintf(&b, "def headErrReturns : String := %s\ndef headEmptyReturns : String := %s\ndef headPositive : Bool := %s\n", leanStr(ff.HeadErrReturns), leanStr(ff.HeadEmptyReturns), wkBool(ff.HeadPositive))
 	fmt.Fprintf(&b, "/-- the timer case sets the back-off state (`retryAt = time.Now().Add(sched.opts.RetryInterval)` when\n    `executeAndReschedule` returns an error); it is the only assignment to that zero-initialised variable -/\ndef stateFromTick : Bool := %s\n", wkBool(ff.StateFromTick))
 	fmt.Fprintf(&b, "/-- every `return` of `executeAndReschedule` returns the error of `fetchAndReschedule` -/\ndef execReturnsFetchErr : Bool := %s\n", wkBool(ff.ExecReturnsFetchErr))
-	fmt.Fprintf(&b, "/-- `fetchAndReschedule` -/\ndef popErrReturned : Bool := %s\ndef popEmptyNil : Bool := %s\ndef pushErrReturned : Bool := %s\n", wkBool(ff.PopErrReturned), wkBool(ff.PopEmptyNil), wkBool(ff.PushErrReturned))
+	fmt.Fprintf(&b, "/-- `fetchAndReschedule`: the `Pop()` error is returned; so is an `ErrQueueEmpty` from `Pop()`; … unless\n    `sched.queue.Size()`, asked in that branch, answers 0 without error (then `nil`); the `Push()` error is returned -/\ndef popErrReturned : Bool := %s\ndef popEmptyReturned : Bool := %s\ndef popEmptyUnlessSizeZero : Bool := %s\ndef pushErrReturned : Bool := %s\n", wkBool(ff.PopErrReturned), wkBool(ff.PopEmptyReturned), wkBool(ff.PopEmptyUnlessZero), wkBool(ff.PushErrReturned))
 	fmt.Fprintf(&b, "/-- every dispatch in `executeAndReschedule` is inside `if valid { … }`, `valid` coming from `validateJob` of the popped job -/\ndef dispatchOnlyIfValid : Bool := %s\n", wkBool(ff.DispatchOnlyIfValid))
 	var ap []string
 	for _, a := range ff.APIPropagates {
